@@ -1267,3 +1267,48 @@ def replay_threads(payload):
             out.append(('interleaved-roundtrip-differs:%s' % what,
                         'thread %d' % t))
     return out
+
+
+# ------------------------------------------------------------ small texts
+# Every text over the line-structure alphabet {LF, CR, blank, "a"} up to
+# length 5 (6 in the thorough tier), as an indented / un-indented preamble
+# and as a diff, with detected and with declared line endings.
+
+TEXT_ALPHA = ['\n', '\r', ' ', 'a']
+
+
+def small_text_units(tier):
+    return [('small-texts', a) for a in range(len(TEXT_ALPHA))]
+
+
+def run_small_text_unit(unit, tier, oracle, acc_cls):
+    import itertools
+    from mc.spec import to_jsonable
+    acc = acc_cls()
+    L = 5 if tier == 'quick' else 6
+    first = TEXT_ALPHA[unit[1]]
+    for n in range(0, L):
+        for rest in itertools.product(TEXT_ALPHA, repeat=n):
+            text = first + ''.join(rest)
+            for indent in (0, 2):
+                for le in (None, 'dos', 'unix'):
+                    calls = [['preamble', text, None, indent, le, None],
+                             ['change', None], ['file', None],
+                             ['meta', {'k': 'v'}, None],
+                             ['diff', text.encode('ascii'), None, None, le]]
+                    ex = Exec(calls, 'utf-8')
+                    viols = oracle(ex)
+                    acc.evals += 1
+                    acc.states += 1
+                    acc.transitions += 1
+                    acc.validated += 1
+                    acc.nontrivial += 1
+                    for key, msg in viols:
+                        acc.violation(key + ':small-text', str(msg)[:800],
+                                      {'kind': 'calls', 'root': 'utf-8',
+                                       'calls': to_jsonable(calls),
+                                       'suffix': ':small-text'})
+                    acc.outcome('ok' if not viols else 'violation')
+    acc.sample({'small_texts_starting_with': repr(first), 'max_length': L},
+               1)
+    return acc
